@@ -422,6 +422,7 @@ def parts(ctx):
     ps += [Part("tagged-cascade%02d" % i, tagged, ("cascade", i, 10 if q else 300)) for i in range(4)]
     ps += [Part("tagged-luts%02d" % i, tagged, ("luts", i, 10 if q else 300)) for i in range(2)]
     ps += [Part("tagged-lutmix%02d" % i, tagged, ("lutmix", i, 12 if q else 300)) for i in range(2)]
+    ps += [Part("tagged-heavy%02d" % i, tagged, ("heavy", i, 14 if q else 300)) for i in range(2)]
     ps += [Part("tagged-fanout%02d" % i, tagged, ("fanout", i, 16 if q else 500)) for i in range(4)]
     ps += [Part("poison-fanout%02d" % i, poison, ("fanout", i, 8 if q else 300)) for i in range(2)]
     ps += [Part("poison%02d" % i, poison, (["cascade", "exact", "slices", "mixed", "approx", "convs"][i % 6], i, 8 if q else 300)) for i in range(6)]
